@@ -16,6 +16,10 @@ CLAIMS = {
  "C02": ("property-based testing: per-call argument oracle inside a recording probe kernel (address-identified cells, model leaf membership, documented code conventions)",
          "Every kernel callback of every generated run is checked: particles handed to a leaf lie in it (model), carry their index and bit-identical data; children/sources are the "
          "objects designated by (parent/target, position code, level); separation/adjacency; no empty list.", "3/C02"),
+ "C03": ("property-based testing over generated task schedules: mock task runtimes (GOMP ABI, Specx API, StarPU API) own the schedule; differential vs sequential + dependency-conflict check on the recorded DAG + ASan lifetimes",
+         "Each generated (tree, thread count, schedule, constructor form) runs the real executor code on a runtime that records the declared dependencies and executes a generated linear extension "
+         "(incl. full deferral past the creating frames); results must be bit-identical to the sequential executor, every conflicting access pair ordered/exclusive in the declared DAG for all "
+         "extensions at once, and no dead variable read (ASan).", "3/C03"),
  "C06": ("property-based testing: construction round trip against the model + byte snapshot metamorphic relation across execution",
          "Each index stored once in the model's leaf with bit-identical data, zero results/expansions, symbolic bytes unchanged by any execution.", "3/C06"),
  "C07": ("property-based testing: structural invariants through public accessors against the model's ancestor closure",
